@@ -83,6 +83,63 @@ def stable_id(fid):
     return re.sub(r'\{closure#\d+\}', '{closure}', fid)
 
 
+def _msg(c):
+    """printable text of a byte-string constant (format pieces of a panic / identifier)"""
+    return re.sub(r'\\x[0-9a-f]{2}|\\[rnt]', '~', c)[:60]
+
+
+def head(e, fn, d=0):
+    """outermost constructor of an expression, operands by type: the coarse, position- and function-independent part of a site"""
+    if not isinstance(e, tuple) or d > 8:
+        return '…'
+    k = e[0]
+    if k in ('try',):
+        return head(e[1], fn, d + 1)
+    if k == 'payload':
+        return head(e[1], fn, d + 1)
+    if k == 'call':
+        sh = short(e[1])
+        if re.search(r'(^|::)(deref|deref_mut|must_use|into_iter|clone|borrow|as_ref|next|from)$', sh) and e[2]:
+            return head(e[2][0], fn, d + 1)
+        if sh.endswith('Arguments::new') and e[2] and e[2][0][0] == 'const':
+            return 'fmt(%s)' % _msg(e[2][0][1])
+        return sh
+    if k == 'field':
+        return '.' + e[2]
+    if k in ('arg', 'var'):
+        return re.sub(r"'\w+ ?|&(mut )?", '', fn.local_ty(e[1]))[:40]
+    if k == 'upvar':
+        return 'cap'
+    if k == 'int':
+        return str(e[1])
+    if k == 'str':
+        return repr(e[1])[:24]
+    if k == 'const':
+        return _msg(e[1]) if e[1].startswith('b"') else 'const'
+    if k == 'bin':
+        return e[1]
+    if k == 'un':
+        return e[1]
+    if k == 'cast':
+        return head(e[4], fn, d + 1)
+    if k == 'agg':
+        return short(e[1])
+    return k
+
+
+def coarse_of(s):
+    hs = []
+    for i, o in enumerate(s['ops'][:2]):
+        o_ = strip(o)
+        tys = s.get('op_tys') or []
+        plain = o_[0] in ('arg', 'var', 'upvar') or (o_[0] == 'payload' and o_[2] == 'Some' and strip(o_[1])[0] == 'call' and short(strip(o_[1])[1]).endswith('next'))
+        if plain and i < len(tys) and tys[i]:
+            hs.append(re.sub(r"'\w+ ?|&(mut )?", '', tys[i])[:40])
+        else:
+            hs.append(head(o, s['fn']))
+    return '%s(%s)' % (s['what'], ','.join(hs))
+
+
 def panic_sites(P, reach):
     """yield dict(fn, kind, what, sig, block, span, expr...) for every panic-capable site"""
     for fid in sorted(reach):
@@ -99,6 +156,7 @@ def panic_sites(P, reach):
                     c = f.expr_of_operand(t['cond'])
                     ops = [c[2]] if c[0] == 'bin' and c[1] == 'Eq' else [c]
                 yield dict(fn=f, kind='assert', what=what, ops=ops, block=bi, span=t['span'],
+                           op_tys=[(o.get('place') or {}).get('ty') or o.get('ty') for o in t['msg_ops']],
                            sig='%s(%s)' % (what, ','.join(nf(o, f) for o in ops)),
                            key='%s|%s(%s)' % (stable_id(f.id), what, ','.join(nf(o, f, 4) for o in ops)))
             elif t['k'] == 'Call' and t.get('callee'):
@@ -108,6 +166,7 @@ def panic_sites(P, reach):
                     if rx.search(p):
                         args = [f.expr_of_operand(a) for a in t['args']]
                         yield dict(fn=f, kind=kind, what=short(p), path=p, ops=args, block=bi, span=t['span'],
+                                   op_tys=[(o.get('place') or {}).get('ty') or o.get('ty') for o in t['args']],
                                    callee=c, sig='%s(%s)' % (short(p), ','.join(nf(a, f) for a in args)),
                                    key='%s|%s(%s)' % (stable_id(f.id), short(p), ','.join(nf(a, f, 4) for a in args[:2])))
                         break
@@ -204,6 +263,10 @@ def auto_discharge(P, s):
                       if _same(f.expr_of_operand(c['term']['args'][0]), v)]
             if pushes and not shrink and any(f.dominates(c['block'], s['block']) for c in pushes):
                 return 'DC-JUST-PUSHED', 'len-1 dominated by a push on the same vector, which is never shrunk'
+    if s['kind'] == 'alloc' and s['what'].endswith('with_capacity') and s['ops']:
+        a = strip(s['ops'][0])
+        if a[0] == 'int' or (a[0] == 'call' and re.search(r'::(len|size_hint|count)$', a[1])):
+            return 'DC-COUNTER', 'capacity is a constant or the length of an existing collection (bounded by memory already in use)'
     if s['kind'] == 'index':
         full = s['callee'].get('rfull', '') + ' ' + ' '.join(s['callee'].get('gargs', []))
         if 'RangeFull' in full:
@@ -340,8 +403,26 @@ def supporting_fact(ctx, name):
         return True, ''
     if name == 'unresolved-constructed-only-in-add_module':
         sites = [f.id for f, bi, st in agg_sites(P, r'semantic::types::Type::Unresolved$')]
-        bad = [s for s in sites if 'SemanticState::add_module' not in s]
-        return (len(sites) >= 1 and not bad), 'Type::Unresolved constructed in %s' % sorted(set(sites))
+        # every constructing function is add_module, one of its closures, or a private helper reachable only through add_module
+        bad = []
+        callers = {}
+        for g in P.fns.values():
+            for w in P.callees(g.id, kinds=('call', 'closure', 'fnref', 'generic-impl')):
+                callers.setdefault(w, set()).add(g.id)
+        for s0 in set(sites):
+            todo, seen_ = [s0], set()
+            while todo:
+                x = todo.pop()
+                if x in seen_ or 'SemanticState::add_module' in x:
+                    continue
+                seen_.add(x)
+                cs = callers.get(x, set()) | ({P.fns[x].parent} if P.fns[x].kind == 'Closure' and P.fns[x].parent in P.fns else set())
+                if P.fns[x].public or (not cs and x != s0):
+                    bad.append(x)
+                if not cs and x == s0:
+                    bad.append(x)
+                todo.extend(cs)
+        return (len(sites) >= 1 and not bad), 'Type::Unresolved constructed in %s; reachable other than through add_module: %s' % (sorted(set(sites)), sorted(set(bad)))
     if name in ('registry-never-removes', 'modules-never-removed'):
         vty = 'semantic::types::ItemDefinition' if name == 'registry-never-removes' else 'semantic::module::Module'
         bad = [(f.id, c['path']) for f, c in all_calls(P, r'(?:HashMap|BTreeMap)::<grammar::ItemPath, %s>::(remove|remove_entry|clear|retain|drain|extract_if|pop_first|pop_last|split_off)$' % re.escape(vty))]
@@ -475,7 +556,17 @@ FINITE_ITER = re.compile(
     r'^(&mut )?(std::iter::(Enumerate|Filter|Map|FilterMap|Zip|Chain|Rev|Peekable|Skip|Take|FlatMap|Flatten|Copied|Cloned|Once)<.*|'
     r'std::slice::(Iter|IterMut)<.*|std::vec::IntoIter<.*|std::array::IntoIter<.*|std::ops::Range<usize>|'
     r'std::collections::hash_(map|set)::\w+<.*|std::str::(Lines|Chars|Split\w*)<.*|syn::punctuated::\w+<.*|'
-    r'std::collections::btree_(map|set)::\w+<.*|std::option::(Iter|IntoIter)<.*|quote::__private::\w+.*)$')
+    r'std::collections::btree_(map|set)::\w+<.*|std::option::(Iter|IntoIter)<.*|quote::__private::\w+.*|'
+    r'glob::Paths|std::path::(Iter|Components|Ancestors)<.*|std::iter::(Inspect|TakeWhile|SkipWhile|MapWhile|StepBy|Fuse|Scan)<.*|std::vec::Drain<.*|'
+    r'std::collections::(vec_deque|binary_heap|linked_list)::\w+<.*|std::str::(CharIndices|Bytes|SplitWhitespace|Matches|RMatches)<.*|std::fs::ReadDir|std::env::Args)$')
+INFINITE = re.compile(r'std::iter::(Repeat|RepeatWith|Cycle|Successors|FromFn|RepeatN)\\b|std::ops::RangeFrom')
+
+
+def finite_iter(ty):
+    ty = re.sub(r"'\\w+ ?", '', ty)
+    return bool(FINITE_ITER.match(ty)) and (not INFINITE.search(ty) or ty.startswith(('std::iter::Take<', 'std::iter::Zip<')))
+
+
 CONSUMING = re.compile(r'^(syn::parse::ParseBuffer::<\'\w+>::(parse|parse_terminated|call|step)|syn::parse::ParseBuffer::parse|'
                        r'syn::parse::ParseBuffer::parse_terminated|syn::parse::ParseBuffer::call|parser::parse_\w+|'
                        r'parser::<impl .*>::parse\w*|parser::.*::parse_\w+|<.* as syn::parse::Parse>::parse)$')
@@ -489,30 +580,64 @@ def run(ctx):
     reach, _ = P.reachable_from(roots)
     ctx.stats['public_roots'] = len(roots)
     # ---- D1 panic sites
+    # Entries (reviewed table + listed findings) are matched to sites in two passes: by exact key (function + signature), then,
+    # for entries whose site is gone, by the coarse signature alone — a site that merely moved to another function, or whose
+    # operands were renamed, stays under the entry's key; an additional site of the same coarse shape is still reported.
+    from core import load_known
+    known, _fixed = load_known()
+    entries = {}
+    for k, t in T.TABLE.items():
+        entries[k] = dict(kind='table', t=t, coarse=t[3] if len(t) > 3 else None, used=False)
+    for (prop, k), r in known.items():
+        if prop == 'C12' and k.startswith('R-PANIC|'):
+            entries[k[len('R-PANIC|'):]] = dict(kind='known', coarse=r.get('coarse'), used=False)
     seen = {}
-    nsites = 0
+    sites = []
     for s in panic_sites(P, reach):
-        nsites += 1
         key = s['key']
+        s['coarse'] = coarse_of(s)
         if s['kind'] == 'ident':
             fmt = [x for x in walk(('tuple', s['ops'])) if isinstance(x, tuple) and x and x[0] == 'const' and x[1].startswith('b"')]
             key = '%s|format_ident(%s)' % (stable_id(s['fn'].id), fmt[0][1] if fmt else '?')
+            s['coarse'] = 'format_ident(%s)' % (fmt[0][1] if fmt else '?')
         n = seen.get(key, 0)
         seen[key] = n + 1
-        okey = key if n == 0 else '%s#%d' % (key, n + 1)
-        where = loc(s['span'])
-        d = auto_discharge(P, s)
-        if d:
-            ctx.ob('C12', 'R-PANIC', okey, True, '%s: %s' % d, where, s['sig'])
+        s['okey'] = key if n == 0 else '%s#%d' % (key, n + 1)
+        s['auto'] = auto_discharge(P, s)
+        sites.append(s)
+    nsites = len(sites)
+    for s in sites:
+        if not s['auto'] and s['okey'] in entries and not entries[s['okey']]['used']:
+            s['entry'] = s['okey']
+            entries[s['okey']]['used'] = True
+    for s in sites:
+        if s['auto'] or s.get('entry'):
             continue
-        t = T.TABLE.get(key) if n == 0 else None
-        if t:
+        for k, en in entries.items():
+            if not en['used'] and en['coarse'] and en['coarse'] == s['coarse']:
+                s['entry'] = k
+                s['moved'] = True
+                en['used'] = True
+                break
+    for s in sites:
+        where = loc(s['span'])
+        if s['auto']:
+            ctx.ob('C12', 'R-PANIC', s['okey'], True, '%s: %s' % s['auto'], where, s['sig'])
+            continue
+        en = entries.get(s.get('entry'))
+        moved = ' [site matched by its coarse signature %s; now in %s]' % (s['coarse'], s['fn'].id) if s.get('moved') else ''
+        if en and en['kind'] == 'table':
+            t = en['t']
             ok, why = supporting_fact(ctx, t[2])
-            ctx.ob('C12', 'R-PANIC', okey, ok, '%s (reviewed): %s%s' % (t[0], t[1], '' if ok else ' — SUPPORTING FACT FAILED: ' + why),
+            ctx.ob('C12', 'R-PANIC', s['entry'], ok, '%s (reviewed): %s%s%s' % (t[0], t[1], '' if ok else ' — SUPPORTING FACT FAILED: ' + why, moved),
                    where, s['sig'])
+        elif en:
+            ctx.ob('C12', 'R-PANIC', s['entry'], False,
+                   'panic-capable site reachable from the public API with no discharge: %s in %s%s' % (s['what'], s['fn'].id, moved), where, s['sig'])
         else:
-            ctx.ob('C12', 'R-PANIC', okey, False,
-                   'panic-capable site reachable from the public API with no discharge: %s in %s' % (s['what'], s['fn'].id), where, s['sig'])
+            ctx.ob('C12', 'R-PANIC', s['okey'], False,
+                   'panic-capable site reachable from the public API with no discharge: %s in %s' % (s['what'], s['fn'].id), where,
+                   s['sig'] + ' coarse=' + s['coarse'])
     ctx.ob('C12', 'R-PANIC', 'census', nsites >= 20, 'panic-capable sites enumerated: %d (floor 20: the census must not be vacuous)' % nsites,
            nontrivial=False)
     # ---- D2 lossy casts of run-time integers
@@ -546,12 +671,25 @@ def run(ctx):
         ok = False
         why = ''
         for (bi, sty, e) in l['drivers']:
-            if FINITE_ITER.match(sty) and not cycle_without(f, l['body'], l['header'], {bi}):
+            if sty.startswith('impl ') and not cycle_without(f, l['body'], l['header'], {bi}):
+                # the iterator is a parameter of opaque type: every call site must pass a finite iterator
+                r_ = _projection_of_param(strip(e))
+                sites_ = [(g, c) for g in P.fns.values() if not g.raw.get('derived') for c in g.calls(lambda r: r['path'] == f.id)]
+                tys = []
+                if r_ and sites_:
+                    for g, c in sites_:
+                        a = c['term']['args'][r_[0] - 1]
+                        tys.append((a.get('place') or {}).get('ty') or a.get('ty') or '?')
+                if tys and all(finite_iter(t) for t in tys):
+                    ok = True
+                    why = 'iterator parameter; every call site passes a finite iterator: %s' % [t[:60] for t in tys]
+                    break
+            if finite_iter(sty) and not cycle_without(f, l['body'], l['header'], {bi}):
                 ok = True
                 why = 'every trip passes Iterator::next of finite %s' % sty[:80]
                 break
         if not ok and any(m.startswith('quote::') for m in l['span'].get('macros', [])):
-            ok = any(FINITE_ITER.match(sty) for (_, sty, _) in l['drivers'])
+            ok = any(finite_iter(sty) for (_, sty, _) in l['drivers'])
             why = 'quote! repetition over finite iterators'
         if not ok and re.search(T.PARSER_LOOP_FNS, f.id):
             cut = {c['block'] for c in f.calls(lambda r: r['path'] and CONSUMING.match(r['path']))}
@@ -572,8 +710,13 @@ def run(ctx):
     cyc = recursive_fns(P, reach)
     for fid in sorted(cyc):
         base = re.sub(r'::\{closure#\d+\}', '', fid)
+        sr = structural_recursion(P, fid, cyc)
+        if sr[0]:
+            ctx.ob('C12', 'R-LOOP', 'recursion|' + stable_id(base), True, 'structural recursion: ' + sr[1], loc(P.fns[fid].span))
+            continue
         ctx.ob('C12', 'R-LOOP', 'recursion|' + stable_id(base), base in T.RECURSION,
-               ('recursion along input nesting (reviewed): ' + T.RECURSION[base]) if base in T.RECURSION else 'recursive function without a reviewed termination argument',
+               ('recursion along input nesting (reviewed): ' + T.RECURSION[base]) if base in T.RECURSION else
+               'recursive function without a structural or reviewed termination argument (%s)' % sr[1],
                loc(P.fns[fid].span))
     # ---- D4 parse errors carry file, line and column
     af = [f for f in P.fns.values() if f.id.endswith('SemanticState::add_file')]
@@ -607,6 +750,56 @@ def _all_consts(fns):
             for op in f.block_operands(bi):
                 if op.get('k') == 'Const':
                     yield op
+
+
+def _projection_of_param(e, d=0):
+    """(param index, number of enum-payload steps) if `e` is a chain of projections (variant payload, field, Box/reference
+    deref, as_ref, iteration over a contained collection) rooted at a parameter of the function, else None"""
+    steps = 0
+    while isinstance(e, tuple) and d < 40:
+        d += 1
+        k = e[0]
+        if k == 'arg':
+            return e[1], steps
+        if k == 'payload':
+            if e[2] not in ('Some', 'Ok', 'Continue'):
+                steps += 1
+            e = e[1]
+        elif k in ('field', 'cindex', 'index', 'try'):
+            e = e[1]
+        elif k == 'cast':
+            e = e[4]
+        elif k == 'call' and e[2] and re.search(r'(^|::)(as_ref|deref|deref_mut|borrow|next|into_iter|iter|as_slice|as_deref|unwrap|clone)$', short(e[1])):
+            e = e[2][0]
+        else:
+            return None
+    return None
+
+
+def structural_recursion(P, fid, cyc):
+    """every call from `fid` back into its cycle is a direct self call one of whose arguments is a strict sub-component (at least
+    one enum-variant payload deep) of the function's own parameter in the same position: recursion on an owned, finite tree"""
+    f = P.fns[fid]
+    if f.kind == 'Closure':
+        return False, 'recursion through a closure'
+    for c in P.closures_of(f):
+        if any(cc['path'] in cyc for cc in c.calls()):
+            return False, 'recursive call inside a closure'
+    n = 0
+    for c in f.calls():
+        if c['path'] not in cyc:
+            continue
+        if c['path'] != fid:
+            return False, 'mutual recursion with ' + c['path']
+        ok = False
+        for i, a in enumerate(c['term']['args']):
+            r = _projection_of_param(strip(f.expr_of_operand(a)))
+            if r and r[0] == i + 1 and r[1] >= 1:
+                ok = True
+        if not ok:
+            return False, 'a self call passes no sub-component of its own parameter'
+        n += 1
+    return n > 0, '%d self call(s), each on a variant payload of the same parameter' % n
 
 
 def recursive_fns(P, reach):
